@@ -249,10 +249,15 @@ impl Store {
         // Only take broadcast subscription if following. We initate the subscription here to
         // ensure we don't miss any messages between historical processing and starting the
         // broadcast subscription.
-        let broadcast_rx = if should_follow {
-            Some(self.broadcast_tx.subscribe())
+        //
+        // Subscribing and taking the watermark happen under the append lock, so every append is
+        // either entirely before (id < watermark: replayed from history) or entirely after
+        // (id > watermark: delivered by the subscription) -- never dropped, never out of order.
+        let (broadcast_rx, watermark) = if should_follow {
+            let _guard = self.append_lock.lock().unwrap();
+            (Some(self.broadcast_tx.subscribe()), Some(scru128::new()))
         } else {
-            None
+            (None, None)
         };
 
         #[cfg(feature = "verif")]
@@ -272,6 +277,11 @@ impl Store {
                 let mut count = 0;
 
                 for frame in store.iter_frames(options.context_id, options.last_id.as_ref()) {
+                    // frames appended after we subscribed arrive through the subscription
+                    if watermark.is_some_and(|watermark| frame.id > watermark) {
+                        break;
+                    }
+
                     if let Some(TTL::Time(ttl)) = frame.ttl.as_ref() {
                         if is_expired(&frame.id, ttl) {
                             let _ = gc_tx.send(GCTask::Remove(frame.id));
